@@ -121,16 +121,16 @@ Proof.
   eapply set_value_at_ok; [|exact E]. eapply hard_reset_loop_ok; eassumption.
 Qed.
 
-Lemma store_value_ok s k rk v s' old :
-  store_ok s -> store_value s k rk v = Ok (s', old) -> store_ok s'.
+Lemma store_value_ok s k rk v s' old u :
+  store_ok s -> store_value s k rk v = Ok (s', old, u) -> store_ok s'.
 Proof.
   unfold store_value. intros H E.
   destruct (dget (options s) rk) as [o1|]; [|discriminate].
   destruct (dmem (options s) k).
-  - apply bind_ok in E as (v4 & Ev & E). injection E as <- _.
+  - apply bind_ok in E as (v4 & Ev & E). injection E as <- _ _.
     unfold store_ok; cbn. apply dset_Forall; [exact H|].
     intros k'. unfold opt_ok; cbn. eapply validate_sound; eassumption.
-  - destruct (ksub k); [|discriminate]. injection E as <- _. exact H.
+  - destruct (ksub k); [|discriminate]. injection E as <- _ _. exact H.
 Qed.
 
 Lemma set_option_ok : forall fuel s k v first s' ch,
@@ -150,7 +150,7 @@ Proof.
     - apply bind_ok in Ed as ([sr cr] & Er & Ed). injection Ed as <- _ _. cbn.
       eapply IH; eassumption. }
   apply bind_ok in E as (v3 & _ & E).
-  apply bind_ok in E as ([s2 old] & Ew & E).
+  apply bind_ok in E as ([[s2 old] u] & Ew & E).
   assert (H2 : store_ok s2) by (eapply store_value_ok; eassumption).
   destruct (oreadonly o && (ch0 || negb (pv_eqb old v3)) && negb first); [discriminate|].
   apply bind_ok in E as (s3 & E3 & E).
